@@ -8,7 +8,7 @@ import math
 import re
 from collections import Counter
 
-from vf.refzinc import ver_lt3, RefReject
+from vf.refzinc import ver_lt3, RefReject, concrete_ver
 
 ID_RE = re.compile(r'^[a-z][A-Za-z0-9_]*$')
 NUM_RE = re.compile(r'^(-?\d+(?:\.\d+)?(?:[eE][+-]?\d+)?|INF|-INF|NaN)(?: (.*))?$', re.S)
@@ -110,7 +110,7 @@ class Reader(object):
         if isinstance(v, dict):
             if not v3:
                 raise RefReject('dict-under-2.0', 0)
-            if {'meta', 'cols'} <= set(v.keys()):
+            if {'meta', 'cols', 'rows'} <= set(v.keys()):
                 return self.grid(v)
             out = []
             for k, x in v.items():
@@ -388,6 +388,7 @@ class Writer(object):
         return base
 
     def grid(self, n, nested=False):
+        n = concrete_ver(n)
         _, ver, meta, cols, rows = n
         v3 = not ver_lt3(ver)
         m = {}
